@@ -18,8 +18,22 @@ const TASK_TX: usize = 1;
 const TASK_RX: usize = 2;
 const TASK_RX2: usize = 3;
 
+/// notification count of each task at the beginning of its latest poll / start_send.  A task is
+/// "woken" iff it was notified after that point: notifications that arrive while the call is still
+/// running make a futures-0.1 executor poll the task again, earlier ones are used up.
+pub static mut CALL_START: [usize; 4] = [0; 4];
+
+fn mark_call_start(task: usize) {
+    unsafe { CALL_START[task] = notify_count(task) };
+}
+
+pub fn woken_since_last_call(task: usize) -> bool {
+    notify_count(task) > unsafe { CALL_START[task] }
+}
+
 pub fn op_start_send<F: FutFl>(slot: usize, tx: usize, id: u8, task: usize) {
     ledger::begin(slot);
+    mark_call_start(task);
     set_task(task);
     let t = unsafe { (*std::ptr::addr_of_mut!((*wp::<F>()).tx[tx])).as_mut().unwrap() };
     let res = match F::start_send(t, F::P::mk(id)) {
@@ -39,6 +53,7 @@ pub fn op_start_send<F: FutFl>(slot: usize, tx: usize, id: u8, task: usize) {
 
 pub fn op_poll<F: FutFl>(slot: usize, rx: usize, task: usize) {
     ledger::begin(slot);
+    mark_call_start(task);
     set_task(task);
     let r = unsafe { (*std::ptr::addr_of_mut!((*wp::<F>()).rx[rx])).as_mut().unwrap() };
     match F::poll(r) {
@@ -51,6 +66,7 @@ pub fn op_poll<F: FutFl>(slot: usize, rx: usize, task: usize) {
 
 pub fn op_u_poll<F: FutFl>(slot: usize, ux: usize, task: usize) {
     ledger::begin(slot);
+    mark_call_start(task);
     set_task(task);
     let u = unsafe { (*std::ptr::addr_of_mut!((*wp::<F>()).ux[ux])).as_mut().unwrap() };
     match F::u_poll(u) {
@@ -70,6 +86,9 @@ pub fn op_u_poll<F: FutFl>(slot: usize, ux: usize, task: usize) {
 //   KIND 5: sink task start_sends into a full queue; the last receiver is dropped
 //   KIND 6: two stream tasks on one shared stream poll an empty queue; sink task start_sends 1, 2
 //   KIND 7: sink task start_sends into a full queue; the single-consumer (view) receiver polls
+//   KIND 8: two streams, the ring is full because of stream 1 only and the sink task is already
+//           parked; the last handle of stream 1 is dropped (outer) while the executor re-polls the
+//           sink task as soon as it has been notified
 //   actor 0 = the task that may park (outer), actor 1 (2) = the other side
 
 pub struct Park<F, const KIND: u8>(PhantomData<F>);
@@ -81,6 +100,12 @@ impl<F: FutFl, const KIND: u8> Prog for Park<F, KIND> {
     #[inline(always)]
     fn step(a: usize, k: usize) {
         match (KIND, a) {
+            (8, 0) => op_drop_rx::<F>(0, 1),
+            (8, _) => {
+                // the executor polls a task again only after it was notified
+                kani::assume(woken_since_last_call(TASK_TX));
+                op_start_send::<F>(4, 0, 2, TASK_TX)
+            }
             (1, 0) | (4, 0) | (6, 0) => op_poll::<F>(0, 0, TASK_RX),
             (2, 0) | (3, 0) | (5, 0) | (7, 0) => op_start_send::<F>(0, 0, 1, TASK_TX),
             (1, _) => op_start_send::<F>(4, 0, 1, TASK_TX),
@@ -103,6 +128,12 @@ pub fn parked<F: FutFl, const KIND: u8, const OUTER: usize>(cap: u64, n: u8, bud
     set_world::<F>(&mut w);
     if KIND == 6 {
         w.rx[1] = Some(F::clone_rx(w.rx[0].as_ref().unwrap()));
+    }
+    unsafe { CALL_START = [0; 4] };
+    if KIND == 8 {
+        parked_stream_removed::<F, OUTER>(&mut w);
+        std::mem::forget(w);
+        return;
     }
     let sender_parks = KIND == 2 || KIND == 3 || KIND == 5 || KIND == 7;
     if sender_parks {
@@ -155,7 +186,7 @@ pub fn parked<F: FutFl, const KIND: u8, const OUTER: usize>(cap: u64, n: u8, bud
             let receivers_gone = KIND == 5 && l.recs[4].res == R_DONE;
             if space || receivers_gone {
                 assert!(
-                    notify_count(TASK_TX) > 0,
+                    woken_since_last_call(TASK_TX),
                     "C14: a sink task stays parked although space was freed or the receivers went away"
                 );
             }
@@ -165,20 +196,60 @@ pub fn parked<F: FutFl, const KIND: u8, const OUTER: usize>(cap: u64, n: u8, bud
         let senders_gone = KIND == 4 && l.recs[4].res == R_DONE;
         if value_waiting || senders_gone {
             assert!(
-                notify_count(TASK_RX) > 0,
+                woken_since_last_call(TASK_RX),
                 "C14: a stream task stays parked although a value is available or the senders went away"
             );
         }
     }
     if KIND == 6 && l.recs[8].res == R_NOTREADY && acc > del {
         assert!(
-            notify_count(TASK_RX2) > 0,
+            woken_since_last_call(TASK_RX2),
             "C14: a stream task stays parked although a value is available"
         );
     }
     ledger::check_c01(1, 0);
     ledger::check_c02();
     std::mem::forget(w);
+}
+
+/// KIND 8 (see above).  N = 1.
+fn parked_stream_removed<F: FutFl, const OUTER: usize>(w: &mut World<F>) {
+    w.rx[1] = Some(F::add_stream(w.rx[0].as_ref().unwrap()));
+    w.rx_stream[1] = 1;
+    // one value: stream 0 takes it, stream 1 keeps it -> the ring (N = 1) is full because of stream 1
+    ledger::declare_send(PRE_SEND_SLOT0, 8, 5);
+    op_send::<F>(PRE_SEND_SLOT0, 0, 5);
+    ledger::declare_recv(PRE_SEND_SLOT0 + 1, 8, 0);
+    op_recv::<F>(PRE_SEND_SLOT0 + 1, 0);
+    // the sink task tries to send and parks
+    ledger::declare_send(PRE_SEND_SLOT0 + 2, 8, 1);
+    op_start_send::<F>(PRE_SEND_SLOT0 + 2, 0, 1, TASK_TX);
+    assert!(
+        lg().recs[PRE_SEND_SLOT0 + 2].res == R_NOTREADY,
+        "C15: start_send into a full queue did not return NotReady"
+    );
+    ledger::declare_other(0, 0);
+    ledger::declare_send(4, 1, 2);
+    // concurrent phase: drop of stream 1's last handle; the executor re-polls the task once woken
+    unsafe {
+        PC = [0; MAXACT];
+    }
+    sched::enable();
+    sched::op_begin();
+    op_drop_rx::<F>(0, 1);
+    sched::op_end();
+    sched::disable();
+    let repolled = lg().recs[4].res != R_NONE;
+    kani::cover!(repolled, "the sink task was polled again while the stream was being removed");
+    // quiescence: stream 1 is gone, stream 0 is drained: there is room.  Either the task got its
+    // value in, or it must have been woken after the start of its last call
+    let last = if repolled { lg().recs[4].res } else { R_NOTREADY };
+    if last == R_NOTREADY {
+        assert!(
+            woken_since_last_call(TASK_TX),
+            "C14: a sink task stays parked although the stream that blocked it was removed"
+        );
+    }
 }
 
 // ==========================================================================================
@@ -202,9 +273,17 @@ pub fn fut_history<F: FutFl, const DEPTH: usize>(cap: u64, n: u8) {
     let mut saw_end = false;
     let mut step = 0;
     set_task(1);
+    // skeleton (see scen_seq::history): fixed operation kinds, the solver decides per step whether
+    // the step is executed:  start_send start_send try_recv start_send poll try_send poll_complete
+    //                        drop_tx poll poll
+    let skel: [u8; 10] = [0, 0, 2, 0, 1, 3, 5, 4, 1, 1];
     while step < DEPTH {
-        let c: u8 = kani::any();
-        kani::assume(c < 6);
+        let c: u8 = skel[step];
+        let doit: bool = kani::any();
+        if !doit {
+            step += 1;
+            continue;
+        }
         match c {
             0 | 3 => {
                 if let Some(tx) = w.tx[0].as_mut() {
@@ -350,6 +429,7 @@ park!(c14_bc_poll_vs_droptx, hk_c14_bc_poll_vs_droptx, BcF00, 4, 0, 2, 2, 1);
 park!(c14_mp_send_vs_droprx, hk_c14_mp_send_vs_droprx, MpF00, 5, 0, 1, 1, 1);
 park!(c14_bc_two_polls, hk_c14_bc_two_polls, BcF00, 6, 0, 2, 2, 3);
 park!(c14_bc_send_vs_upoll, hk_c14_bc_send_vs_upoll, BcF00, 7, 0, 1, 1, 1);
+park!(c14_bc_drop_stream_repoll, hk_c14_bc_drop_stream_repoll, BcF00, 8, 0, 1, 1, 1);
 park!(c14_bc10_poll_vs_send, hk_c14_bc10_poll_vs_send, BcF10, 1, 0, 2, 2, 1);
 park!(c14_mp11_send_vs_poll, hk_c14_mp11_send_vs_poll, MpF11, 2, 0, 1, 1, 1);
 
@@ -358,9 +438,9 @@ macro_rules! fh {
         crate::mq_harness!($name, $hk, Idle, fut_history::<$f, $depth>($cap, $n));
     };
 }
-fh!(c15_bc_hist_d4, hk_c15_bc_hist_d4, BcF00, 4, 1, 1);
-fh!(c15_mp_hist_d4, hk_c15_mp_hist_d4, MpF00, 4, 2, 2);
-fh!(c15_bc10_hist_d3, hk_c15_bc10_hist_d3, BcF10, 3, 2, 2);
+fh!(c15_bc_hist, hk_c15_bc_hist, BcF00, 10, 1, 1);
+fh!(c15_mp_hist, hk_c15_mp_hist, MpF00, 10, 2, 2);
+fh!(c15_bc10_hist, hk_c15_bc10_hist, BcF10, 10, 2, 2);
 
 crate::mq_harness!(c05_bcfut_uni_addstream, hk_c05_bcfut_uni_addstream, Idle, uni_add_stream::<BcastFut<payload::Tok, 0, 0>>(2));
 crate::mq_harness!(c05_mpfut_uni_addstream, hk_c05_mpfut_uni_addstream, Idle, uni_add_stream::<MpmcFut<payload::Tok, 0, 0>>(2));
